@@ -47,6 +47,9 @@ CLAIMS = {
  'C15': ("bumpFixed_ok_iff, bumpFixed_preserves, after_any_bumps_safe: the repaired rule (checked_add, assert, then assign) succeeds exactly when the new end is representable, in range and on a boundary, and every sequence of bumps, successful or panicking, leaves a span for which slice()/remainder() are defined; bumpFound_* prove that the code as found violated this (kept as regression witnesses); real Lexer::bump exercised at boundary values in debug/release x default/forbid_unsafe under catch_unwind.",
          "the model treats usize as 64-bit; 32-bit targets are not exercised.",
          "Lean theorems on the bump rule + boundary-value correspondence in 4 builds"),
+ 'C16': ("Every hash-container use in logos-codegen has one of four shapes (sort by a unique key, membership only, singleton test, union of byte classes); each shape is a function of an arbitrary enumeration order proved permutation-invariant (sortByKey_perm, sortByKey_perm_of_injective, singletonSome_perm, contains_perm, mergeTables_perm); every corpus definition is generated on many threads in several fresh processes with both code generators and the hashes of generated code and captured graph must coincide; logos-cli twice + --check.",
+         "partial: that every site has one of the modelled shapes is by inspection (sites listed in the evidence); process-level hash seeds are exercised, not enumerated.",
+         "Lean permutation-invariance theorems per site shape + repeated-generation correspondence across threads/processes/generators"),
  'C17': ("stripFixed_entries / stripFixed_no_logos / stripFixed_id: the derive-list rewrite keeps exactly the entries that do not name Logos, path-qualified ones included, unchanged and in order (stripFound_counterexample: the code as found did not); check_never_writes, check_ok_iff, write_then_check_ok for the CLI's write/check logic; real strip_attributes output compared structurally (syn) with the input for generated enum sources; the real logos-cli binary driven through random write/check/corrupt/CRLF/delete sequences with file snapshots.",
          "--format (rustfmt) not exercised; 'denotes Logos' = last path segment is Logos.",
          "Lean theorems on the rewrite and CLI models + structural correspondence with the real binary"),
